@@ -300,6 +300,18 @@ def check_case(case, ctx):
         else:
             best = max(c for c, _ in defined)
             want = min(i for c, i in defined if c == best)
+        # means that agree up to round-off (1e-9 relative; 1e-6 when float32 logits are involved) are a tie the statement cannot pin down
+        # - how the mean is accumulated decides it: any of these engines may be kept; exactly equal means: the first one
+        if defined:
+            f32 = any(c.logits is not None and c.logits.dtype != np.float64 for c in cands)
+            near = [i for c, i in defined if best - c <= (1e-6 if f32 else 1e-9) * max(abs(best), 1e-300) and c != best]
+            for i in sorted(near):
+                ci = cands[i]
+                if m.transcription == ci.transcription and list(m.characters) == list(ci.characters) and m.logits.shape == ci.logits.shape \
+                        and abs(m.logits - ci.logits).max() == 0:
+                    want = i
+                    ctx.tag('near-tie-of-mean-confidences-either-engine-accepted')
+                    break
         w = cands[want]
         same_fields = (m.transcription == w.transcription and list(m.characters) == list(w.characters) and
                        m.logits.shape == w.logits.shape and abs(m.logits - w.logits).max() == 0)
